@@ -645,8 +645,9 @@ class LazyStackedTensorDict(TensorDictBase):
         #         )
         #     inplace = has_key
         if not validated:
+            # checked against the batch size and device of the stack only: the nested nodes of
+            # the members, which may have a longer batch size or another device, validate again
             value = self._validate_value(value, non_blocking=non_blocking)
-            validated = True
         if self._is_vmapped:
             value = self.hook_in(value)
         values = value.unbind(self.stack_dim)
